@@ -38,11 +38,21 @@ def invariantCulture : Culture where
   eraPrimaryBCE := "B.C.".toList
   eraPrimaryCE := "A.D.".toList
 
-/-- a pattern object: a stepped pattern, or (Offset only) the `Z`-prefix wrapper / a composite -/
+/-- a segment of a LocalDateTime pattern with embedded patterns: plain steps of the outer builder, an embedded
+    LocalDate pattern `ld<…>`, an embedded LocalTime pattern `lt<…>` (one format/parse action pair each) -/
+inductive Seg where
+  | plain (steps : List Step)
+  | date (c : Compiled)
+  | time (c : Compiled)
+  deriving Repr
+
+/-- a pattern object: a stepped pattern, (Offset only) the `Z`-prefix wrapper / a composite, or (LocalDateTime only)
+    a stepped pattern some of whose actions are embedded date / time patterns -/
 inductive Pat where
   | stepped (c : Compiled)
   | zprefix (p : Pat)
   | composite (ps : List Pat)
+  | segmented (cu : Culture) (used : Nat) (segs : List Seg)
   deriving Repr
 
 def steppedOf (r : R Compiled) : R Pat :=
@@ -76,6 +86,89 @@ def compileDate (cu : Culture) (text : Text) : R Pat :=
     else .error .invalidPattern
   | _ => steppedOf (compileCustom .date cu text)
 
+/-! ### LocalDateTime patterns with embedded date / time patterns -/
+
+/-- builder state of a LocalDateTime pattern with embedded patterns: finished segments and the plain steps since -/
+structure DSt where
+  used : Nat
+  segs : List Seg
+  cur : List Step
+  deriving Repr
+
+/-- `_add_embedded_local_partial` for a LocalDateTime builder, cursor on `l`: `ld<…>` / `lt<…>`; `l<…>` is rejected
+    (no date-time extractor), anything else fails in `get_embedded_pattern`.  The embedded text is compiled as a
+    LocalDate / LocalTime pattern of its own (standard letters included). -/
+def handleEmbedded (cu : Culture) (rest : Text) (st : DSt) : R (DSt × Nat) :=
+  match rest with
+  | 'd' :: r =>
+    match embeddedPattern r with
+    | .error e => .error e
+    | .ok (text, k) =>
+      match addField ⟨st.used, []⟩ F.embeddedDate with
+      | .error e => .error e
+      | .ok u =>
+        match compileDate cu text with
+        | .ok (.stepped c) => .ok ({ used := u.used, segs := st.segs ++ [.plain st.cur, .date c], cur := [] }, k + 1)
+        | .ok _ => .error .other
+        | .error e => .error e
+  | 't' :: r =>
+    match embeddedPattern r with
+    | .error e => .error e
+    | .ok (text, k) =>
+      match addField ⟨st.used, []⟩ F.embeddedTime with
+      | .error e => .error e
+      | .ok u =>
+        match compileTime cu text with
+        | .ok (.stepped c) => .ok ({ used := u.used, segs := st.segs ++ [.plain st.cur, .time c], cur := [] }, k + 1)
+        | .ok _ => .error .other
+        | .error e => .error e
+  | _ => .error .invalidPattern
+
+/-- one character of a LocalDateTime pattern text: `l` starts an embedded pattern, the rest is the plain table -/
+def handleDT (cu : Culture) (c : Char) (rest : Text) (st : DSt) : R (DSt × Nat) :=
+  if c = 'l' then handleEmbedded cu rest st
+  else
+    match handleDateTime cu c rest ⟨st.used, st.cur⟩ with
+    | .error e => .error e
+    | .ok (st', k) => .ok ({ st with used := st'.used, cur := st'.steps }, k)
+
+def compileLoopDT (cu : Culture) : Nat → Text → DSt → R DSt
+  | _, [], st => .ok st
+  | 0, _ :: _, _ => .error .other
+  | f + 1, c :: rest, st =>
+    match handleDT cu c rest st with
+    | .error e => .error e
+    | .ok (st', k) => compileLoopDT cu f (rest.drop k) st'
+
+def F.allTimeFields : Nat := F.hours12 ||| F.hours24 ||| F.minutes ||| F.seconds ||| F.fraction ||| F.amPm ||| F.embeddedTime
+def F.allDateFields : Nat := F.year ||| F.yearTwoDigits ||| F.yearOfEra ||| F.monthNum ||| F.monthText ||| F.dayOfMonth |||
+  F.dayOfWeek ||| F.era ||| F.calendar ||| F.embeddedDate
+
+/-- `_SteppedPatternBuilder._build`: an embedded date (time) excludes every other date (time) field -/
+def buildCheck (used : Nat) : R Unit :=
+  if used &&& F.embeddedDate ≠ 0 ∧ used &&& (F.allDateFields ^^^ F.embeddedDate) ≠ 0 then .error .invalidPattern
+  else if used &&& F.embeddedTime ≠ 0 ∧ used &&& (F.allTimeFields ^^^ F.embeddedTime) ≠ 0 then .error .invalidPattern
+  else .ok ()
+
+/-- the whole builder run for a LocalDateTime pattern text that uses `l` -/
+def compileSegmented (cu : Culture) (text : Text) : R Pat :=
+  match compileLoopDT cu text.length text ⟨0, [], []⟩ with
+  | .error e => .error e
+  | .ok st =>
+    match validateUsed st.used with
+    | .error e => .error e
+    | .ok _ =>
+      match buildCheck st.used with
+      | .error e => .error e
+      | .ok _ => .ok (.segmented cu st.used (st.segs ++ [.plain st.cur]))
+
+/-- `parse_no_standard_expansion` of the LocalDateTime parser: the plain builder; when it meets the letter `l`
+    (`!dom` of `handleDateTime`) the builder with embedded patterns -/
+def compileDTText (tm : Tmpl) (cu : Culture) (text : Text) : R Pat :=
+  match compileCustom (.datetime tm) cu text with
+  | .error .decimalDomain => compileSegmented cu text
+  | r => steppedOf r
+
 /-- `_LocalDateTimePatternParser.parse_pattern` (template value in the ISO calendar).  The standard letters
     `o O r R s S` resolve to the shared built-in pattern objects, which were created with the invariant culture
     and the DEFAULT template value (see `effTmpl`); `f F g G` expand the culture's pattern texts. -/
@@ -93,12 +186,12 @@ def compileDateTime (tm : Tmpl) (cu : Culture) (text : Text) : R Pat :=
       steppedOf (compileCustom (.datetime tm) invariantCulture "uuuu'-'MM'-'dd'T'HH':'mm':'ss".toList)
     else if c = 'S' then
       steppedOf (compileCustom (.datetime tm) invariantCulture "uuuu'-'MM'-'dd'T'HH':'mm':'ss;FFFFFFFFF".toList)
-    else if c = 'f' then steppedOf (compileCustom (.datetime tm) cu (cu.longDate ++ [' '] ++ cu.shortTime))
-    else if c = 'F' then steppedOf (compileCustom (.datetime tm) cu cu.fullDateTime)
-    else if c = 'g' then steppedOf (compileCustom (.datetime tm) cu (cu.shortDate ++ [' '] ++ cu.shortTime))
-    else if c = 'G' then steppedOf (compileCustom (.datetime tm) cu (cu.shortDate ++ [' '] ++ cu.longTime))
+    else if c = 'f' then compileDTText tm cu (cu.longDate ++ [' '] ++ cu.shortTime)
+    else if c = 'F' then compileDTText tm cu cu.fullDateTime
+    else if c = 'g' then compileDTText tm cu (cu.shortDate ++ [' '] ++ cu.shortTime)
+    else if c = 'G' then compileDTText tm cu (cu.shortDate ++ [' '] ++ cu.longTime)
     else .error .invalidPattern
-  | _ => steppedOf (compileCustom (.datetime tm) cu text)
+  | _ => compileDTText tm cu text
 
 /-- `_AnnualDatePatternParser.parse_pattern`: `G` is the shared ISO pattern `MM'-'dd` (invariant culture) -/
 def compileAnnual (tm td : Int) (cu : Culture) (text : Text) : R Pat :=
@@ -119,6 +212,17 @@ def compileDuration (cu : Culture) (text : Text) : R Pat :=
     else if c = 'j' then steppedOf (compileCustom .duration invariantCulture "-H:mm:ss.FFFFFFFFF".toList)
     else .error .invalidPattern
   | _ => steppedOf (compileCustom .duration cu text)
+
+/-- `_InstantPatternParser.parse_pattern`: `g` is the general pattern text; any other text is handed to
+    `LocalDateTimePattern._create` with the UTC date-time of the Instant template value (the adapter converts
+    values with `in_utc()` / `Instant._ctor(days, nano_of_day)`, outside this model) -/
+def compileInstant (tm : Tmpl) (cu : Culture) (text : Text) : R Pat :=
+  match text with
+  | [] => .error .invalidPattern
+  | [c] =>
+    if c = 'g' then compileDTText tm cu "uuuu'-'MM'-'dd'T'HH':'mm':'ss'Z'".toList
+    else .error .invalidPattern
+  | _ => compileDTText tm cu text
 
 /-- the template value a LocalDateTime pattern object parses with: the built-in patterns behind the standard
     letters `o O r R s S` keep the default template whatever template was asked for -/
